@@ -50,6 +50,9 @@ func PathFor(in interface{}) (string, error) {
 	}
 
 	rv := reflect.Indirect(reflect.ValueOf(in))
+	if !rv.IsValid() {
+		return "", errors.New("can not calculate path to a nil pointer")
+	}
 
 	to := rv.Type()
 	k := to.Kind()
